@@ -48,6 +48,9 @@ def random_coord(rng, lim):
     k = rng.random()
     if k < 0.15:
         return rng.choice([0.0, -0.0, 0.00005, -0.00005, 0.00015, 1.00005, -2.5, 0.5, 9999.9999 if lim >= 1e4 else 99.5, -999.99995, 1e-13, -1e-13, 123.45675])
+    if k < 0.2:
+        # magnitudes around the last decimals of the 12-decimal XYZ field
+        return rng.choice([-1, 1]) * rng.uniform(1, 9.9) * 10.0 ** rng.randint(-13, -8)
     if k < 0.5:
         return round(rng.uniform(-20, 20), rng.choice([1, 3, 4, 6, 12]))
     return rng.uniform(-lim, lim) * rng.choice([1, 1e-1, 1e-2, 1e-3])
@@ -167,6 +170,17 @@ def check_molecule(m, zs, pos, rng, tmp, with_bonds):
         return "xyz: elements differ after save/load"
     if not np.allclose(m2.positions, pos, rtol=0, atol=0.51e-12 + 1e-16 * np.abs(pos).max()):
         return f"xyz: coordinates differ by {np.abs(m2.positions - pos).max():.3g} (> 1e-12 precision of the format)"
+    # the format named explicitly (fmt=) decides, for writing and for reading alike, whatever the file is called
+    for name, fmt in (("as_xyz.sdf", "xyz"), ("as_xyz.dat", "xyz"), ("noext", ".xyz")) + ((("as_sdf.xyz", "sdf"),) if np.abs(pos).max() < 9999.99994 else ()):
+        pf = os.path.join(tmp, name)
+        try:
+            m.save(pf, fmt=fmt)
+            mf = Molecule.load(pf, fmt=fmt)
+        except Exception as ex:  # noqa
+            return f"save/load of {name!r} with fmt={fmt!r} raised {type(ex).__name__}: {ex}"
+        mf = mf if isinstance(mf, Molecule) else (mf[0] if len(mf) == 1 else None)
+        if mf is None or [int(z) for z in mf.atomic_numbers] != zs or not np.allclose(mf.positions, pos, rtol=0, atol=(0.50001e-4 if "sdf" in fmt else 0.51e-12 + 1e-16 * np.abs(pos).max())):
+            return f"save/load of {name!r} with fmt={fmt!r} does not reproduce the molecule"
     # case / blank variants of the same text
     txt = m.to_xyz_string()
     lines = txt.splitlines()
